@@ -161,3 +161,51 @@ func GnarkEngine(mech Mech, in, exp []*big.Int, f gad.Fn) (err error) {
 	})
 	return err
 }
+
+// CompileCircuit compiles an arbitrary circuit (e.g. the whole verifier) for the given proof
+// system and range-check mechanism.
+func CompileCircuit(kind Kind, mech Mech, c frontend.Circuit) (sys *System, err error) {
+	defer func() {
+		if r := recover(); r != nil {
+			err = fmt.Errorf("compile panic: %v", r)
+		}
+	}()
+	var nb frontend.NewBuilder = r1cs.NewBuilder
+	if kind == SCS {
+		nb = scs.NewBuilder
+	}
+	inner := nb
+	if mech == MechNative {
+		nb = func(field *big.Int, cfg frontend.CompileConfig) (frontend.Builder, error) {
+			b, err := inner(field, cfg)
+			if err != nil {
+				return nil, err
+			}
+			return nativeBuilder{b}, nil
+		}
+	}
+	var ccs constraint.ConstraintSystem
+	withEnv(mech, func() {
+		gl.VerifResetChips()
+		ccs, err = frontend.Compile(ecc.BN254.ScalarField(), nb, c)
+		gl.VerifResetChips()
+	})
+	if err != nil {
+		return nil, err
+	}
+	return &System{Kind: kind, Mech: mech, CCS: ccs}, nil
+}
+
+// SolveCircuit returns nil iff the assignment satisfies the compiled system.
+func (s *System) SolveCircuit(assignment frontend.Circuit, opts ...solver.Option) (err error) {
+	defer func() {
+		if r := recover(); r != nil {
+			err = fmt.Errorf("solver panic: %v", r)
+		}
+	}()
+	w, err := frontend.NewWitness(assignment, ecc.BN254.ScalarField())
+	if err != nil {
+		return fmt.Errorf("witness: %w", err)
+	}
+	return s.CCS.IsSolved(w, opts...)
+}
